@@ -53,6 +53,18 @@ class Roles:
         m["pack_loader"] = first([b for b in readers if "Vec<u8>" in b.local_ty(0)])
         m["obj_reader"] = first([b for b in readers if "serde_json::Value" in b.local_ty(0)])
         m["pack_writer"] = first([b for b in ds if calls_adapter(b, "write_object") and not passthrough(b, "write_object")])
+        if m["pack_writer"] is None and m.get("raw_write") is not None:
+            # the pack writer may hand its bytes to the storage's own raw writer: then it is the storage function that calls that raw
+            # writer and fills the object index
+            rw_ = m["raw_write"].path
+            def fills_index(b):
+                for _, t in b.calls():
+                    if t.callee is not None and t.callee.name in ("insert", "extend") and t.args:
+                        from .common import field_path, arg_term
+                        if "committed_objects" in field_path(arg_term(b, t, 0, 14))[0]:
+                            return True
+                return False
+            m["pack_writer"] = first([b for b in ds if self._calls(b, lambda c, t, x: c.target() == rw_) and fills_index(b)])
         m["pack_applier"] = first([b for b in ds if self._calls(b, lambda c, t, x: c.target() == "utils::digest_bytes") and
                                    not self._calls(b, lambda c, t, x: c.trait == ADAPTER_TRAIT)])
         # applier: the private function that applies a whole block (takes a `&Delta`) and reaches the tree insertion, itself or
